@@ -9,8 +9,8 @@
     (assignments the statement says must be accepted / refused / cannot be represented),
     last_good, reading_of, date_guard, dec_len, rev_acceptable. *)
 From V.lib Require Import Prelude Calendar.
-From V.model Require Import CoreProps.
-From V.proofs Require Import Calendar_proofs CoreProps_proofs.
+From V.model Require Import CoreProps CorePropsCodec.
+From V.proofs Require Import Calendar_proofs CoreProps_proofs CorePropsCodec_proofs.
 
 (** ---- strings ---- *)
 
@@ -190,6 +190,154 @@ Theorem C18_add_seconds : forall t k,
   (forall u, valid_datetime u = true -> to_seconds u = (to_seconds t + k)%Z -> u = add_seconds t k).
 Proof. exact add_seconds_char. Qed.
 Print Assumptions C18_add_seconds.
+
+(** ---- save and re-open, through a concrete codec of docProps/core.xml ----
+
+    model/CorePropsCodec.v: enc_core_m / enc_core write docProps/core.xml as lxml serialises the
+    tree python-pptx holds (declaration, root with the declarations of the template root or of the
+    root CorePropertiesPart.default builds, one element per child in the order of the state,
+    xsi:type where the flag is set, text escaped as libxml2 escapes text); dec_core_r / dec_core
+    read that document shape, element text through the lexer of model/Escape.v, which contains
+    libxml2's blank-text removal (remove_blank_text of the oxml parser).  Tied to lxml byte for
+    byte by the codec phase of checks/c18.py.  Vocabulary: wire_ok (declared children only, every
+    text made of XML characters), wire_m (the same on a state with text-node marks), assigned /
+    parsed (every child holds a text node / none with empty text does), reopen st =
+    dec_core (enc_core st), cycles, has_xsi, text_escape, text_val. *)
+
+(** Reading what was written gives back the root kind and the state, whatever the text-node
+    marks, for every state of declared children whose texts are XML characters: no bound on the
+    number of children or the length of the texts. *)
+Theorem C18_reopen_codec : forall (r : rootk) (w : list (child * bool)),
+  forallb wire_m w = true -> dec_core_r (enc_core_m r w) = Some (r, map fst w).
+Proof. exact dec_enc_m. Qed.
+Print Assumptions C18_reopen_codec.
+
+(** Save and re-open is the identity on the state. *)
+Theorem C18_reopen_identity : forall st : cpstate,
+  wire_ok st = true -> dec_core (enc_core st) = Some st.
+Proof. exact dec_enc_core. Qed.
+Print Assumptions C18_reopen_identity.
+
+(** What the parser does to an element whose text is only blanks (space, TAB, LF, CR): it keeps
+    the text, character for character.  libxml2 drops a blank chunk in front of a child element
+    or a raw CR only; in front of the end tag of an element that holds nothing else the chunk is
+    delivered, and the writer sends CR as a character reference.  The one text that is not read
+    back as a text node is the empty one (start tag, end tag), which every reader of
+    oxml/coreprops.py and the model state identify with an absent text. *)
+Theorem C18_reopen_blank_text : forall s : str,
+  forallb Escape.is_blank s = true -> text_val (text_escape s) = Some s.
+Proof. exact blank_text_kept. Qed.
+Print Assumptions C18_reopen_blank_text.
+
+Theorem C18_reopen_any_text : forall s : str,
+  Escape.xml_str s = true -> text_val (text_escape s) = Some s.
+Proof. exact text_val_escape. Qed.
+Print Assumptions C18_reopen_any_text.
+
+(** The second save (the tree as the parser built it: no text node where the text is empty)
+    is read as the same state again. *)
+Theorem C18_reopen_second_save : forall (r : rootk) (st : cpstate),
+  wire_ok st = true -> dec_core_r (enc_core_m r (parsed st)) = Some (r, st).
+Proof. exact dec_enc_parsed. Qed.
+Print Assumptions C18_reopen_second_save.
+
+(** Whatever document of the shape is loaded, the state read is writable, and saving and
+    re-opening it returns it. *)
+Theorem C18_reopen_loaded : forall (s : str) (st : cpstate),
+  dec_core s = Some st -> wire_ok st = true /\ reopen st = Some st.
+Proof. exact (fun s st H => conj (dec_core_wire s st H) (loaded_reopen s st H)). Qed.
+Print Assumptions C18_reopen_loaded.
+
+(** Two states with the same document are the same state. *)
+Theorem C18_reopen_injective : forall st1 st2 : cpstate,
+  wire_ok st1 = true -> wire_ok st2 = true -> enc_core st1 = enc_core st2 -> st1 = st2.
+Proof. exact enc_core_inj. Qed.
+Print Assumptions C18_reopen_injective.
+
+(** Every assignment of any value, accepted or refused, keeps the state writable. *)
+Theorem C18_reopen_writable_step : forall (p : prop) (v : pyv) (st : cpstate),
+  wire_ok st = true -> (forall d, v = VDt d -> valid_pydt d = true) ->
+  wire_ok (fst (set_prop p v st)) = true.
+Proof. exact wire_step. Qed.
+Print Assumptions C18_reopen_writable_step.
+
+(** Strings: every string of at most 255 XML characters is accepted, and after save and re-open
+    the property reads exactly that string -- blank-only strings, leading and trailing blanks,
+    CR, TAB, LF, markup characters included.  The blank-text treatment forces NO side condition. *)
+Theorem C18_reopen_text : forall (p : prop) (s : str) (st : cpstate),
+  kind_of p = KText -> (length s <= 255)%nat -> forallb xml_ok s = true -> wire_ok st = true ->
+  let st1 := fst (set_prop p (VStr s) st) in
+  snd (set_prop p (VStr s) st) = Ok tt /\
+  reopen st1 = Some st1 /\
+  (forall st2, reopen st1 = Some st2 -> get_prop st2 p = Ok (OStr s)).
+Proof. exact text_reopen. Qed.
+Print Assumptions C18_reopen_text.
+
+(** Datetimes (naive or aware, UTC wall clock within years 1..9999): after save and re-open the
+    property reads the UTC wall clock to the second, dcterms:created / dcterms:modified still
+    carry xsi:type, and a valid part is still valid. *)
+Theorem C18_reopen_date : forall (p : prop) (d : pydt) (st : cpstate),
+  kind_of p = KDate -> valid_pydt d = true -> in_py_range (utc_wall d) = true -> wire_ok st = true ->
+  let st1 := fst (set_prop p (VDt d) st) in
+  snd (set_prop p (VDt d) st) = Ok tt /\
+  reopen st1 = Some st1 /\
+  (forall st2, reopen st1 = Some st2 ->
+     get_prop st2 p = Ok (ODt (Some (utc_wall d))) /\
+     (needs_xsi p = true -> has_xsi st2 p) /\
+     (valid_cp st = true -> valid_cp st2 = true)).
+Proof. exact date_reopen. Qed.
+Print Assumptions C18_reopen_date.
+
+Theorem C18_reopen_revision : forall (z : Z) (st : cpstate),
+  (1 <= z)%Z -> (dec_len z <= 4300)%N -> wire_ok st = true ->
+  let st1 := fst (set_prop Revision (VInt z) st) in
+  snd (set_prop Revision (VInt z) st) = Ok tt /\
+  reopen st1 = Some st1 /\
+  (forall st2, reopen st1 = Some st2 -> get_prop st2 Revision = Ok (OInt z)).
+Proof. exact revision_reopen. Qed.
+Print Assumptions C18_reopen_revision.
+
+(** After any history of assignments (any values, accepted or refused) from a writable state --
+    the empty element in particular -- any number of save / re-open cycles gives back the very
+    state: every reading, every child, every xsi:type and validity are those before the save. *)
+Theorem C18_reopen_history : forall (ops : list op) (st : cpstate) (n : nat),
+  wire_ok st = true -> Forall date_guard ops -> cycles n (run ops st) = Some (run ops st).
+Proof. exact history_reopen. Qed.
+Print Assumptions C18_reopen_history.
+
+(** The part CorePropertiesPart.default builds, written with its own root, reads back as built. *)
+Theorem C18_reopen_default_part : forall now : pydt, valid_pydt now = true ->
+  dec_core_r (enc_core_r RDefault (default_part now)) = Some (RDefault, default_part now).
+Proof. exact default_reopen. Qed.
+Print Assumptions C18_reopen_default_part.
+
+(** non-vacuity: title = one blank; blanks, CR LF, empty text, markup and an astral character,
+    xsi:type; hypotheses of the text and date statements *)
+Example C18_reopen_blank_title :
+  let st := fst (set_prop Title (VStr [32]%N) []) in
+  wire_ok st = true /\ reopen st = Some st /\ get_prop st Title = Ok (OStr [32]%N).
+Proof. exact blank_title. Qed.
+
+Example C18_reopen_forms :
+  let st := [mkChild (TProp Title) [32; 9; 10; 13; 32]%N false; mkChild (TProp Subject) [13; 10]%N false;
+             mkChild (TProp Author) [] false; mkChild (TProp Created) [32; 60; 38; 62; 34; 39; 128512; 32]%N true] in
+  wire_ok st = true /\ reopen st = Some st /\
+  dec_core (enc_core_m RTemplate (parsed st)) = Some st.
+Proof. exact blank_forms. Qed.
+
+Example C18_reopen_text_nonvacuous :
+  kind_of Title = KText /\ (length [32; 10; 32]%N <= 255)%nat /\ forallb xml_ok [32; 10; 32]%N = true /\
+  wire_ok [mkChild (TProp Created) [9]%N true] = true.
+Proof. exact text_reopen_nonvacuous. Qed.
+
+Example C18_reopen_date_nonvacuous :
+  let d := mkPydt (mkDT 4 2 29 23 59 59) 999999 (Some 3600%Z) in
+  kind_of Modified = KDate /\ valid_pydt d = true /\ in_py_range (utc_wall d) = true /\ needs_xsi Modified = true.
+Proof. exact date_reopen_nonvacuous. Qed.
+
+(** a child outside the declared 15 has no name in the model: the writer's place-holder is refused *)
+Example C18_reopen_other_refused : dec_core (enc_core [mkChild (TOther 0) [97]%N false]) = None.
+Proof. exact dec_other_refused. Qed.
 
 (** ---- non-vacuity ---- *)
 
